@@ -575,4 +575,298 @@ def commentChar : Char := {T.lean_char(m.group(1))}
     T.write("ScriptTables", body)
 
 
-TABLES = {"QuoteTables": quote_tables, "OptionTable": option_table, "ScriptTables": script_tables}
+# ------------------------------------------------------------------------------------------------
+# Format strings of the listing printers (wave 3).  What is extracted: the format string of every
+# `write!` / `writeln!` call of the printer functions and which expression fills which placeholder.
+# Accepted spellings: positional `{}` or inline `{name}` arguments (made positional here), `writeln!`
+# or `write!` with a trailing `\n` in the format, `&` before an argument, any layout.  The ARGUMENTS
+# must be the expected expressions in the expected order (a swapped pair is a real change -> loud
+# failure); the FORMAT goes to Lean, where `printers_follow_source_formats` ties the model printers to it.
+
+def fmt_calls(T, body, what):
+    """the `write!` / `writeln!` calls of `body` in source order: (format without trailing newline, [args])"""
+    out = []
+    for m in re.finditer(r"\bwrite(ln)?!\s*\(", body):
+        i = m.end() - 1
+        depth, j, n = 0, i, len(body)
+        while j < n:
+            c = body[j]
+            if c == '"':
+                j += 1
+                while body[j] != '"':
+                    j += 2 if body[j] == "\\" else 1
+            elif c == "'":
+                mm = re.match(CHAR_LIT, body[j:])
+                if mm:
+                    j += mm.end() - 1
+            elif c == "(":
+                depth += 1
+            elif c == ")":
+                depth -= 1
+                if depth == 0:
+                    break
+            j += 1
+        if j >= n:
+            T.fail(f"{what}: unbalanced write! call")
+        parts = [x.strip() for x in split_top(body[i + 1:j], ",")]
+        if parts and parts[-1] == "":
+            parts.pop()
+        if len(parts) < 2 or not re.fullmatch(r'"(?:[^"\\]|\\.)*"', parts[1]):
+            T.fail(f"{what}: write! call without a literal format string: {body[m.start():j + 1]!r}")
+        fmt = parts[1][1:-1]
+        if re.search(r"\\(?!n)", fmt):
+            T.fail(f"{what}: escape sequence other than \\n in a format string {fmt!r} is not modelled")
+        fmt = fmt.replace("\\n", "\n")
+        newline = m.group(1) is not None
+        if not newline and fmt.endswith("\n"):
+            fmt, newline = fmt[:-1], True
+        if "\n" in fmt:
+            T.fail(f"{what}: a newline inside the format string {fmt!r} is not modelled")
+        positional = [re.sub(r"\s+", "", a).lstrip("&") for a in parts[2:]]
+        args, canon, k, pos = [], [], 0, 0
+        while k < len(fmt):
+            if fmt.startswith("{{", k) or fmt.startswith("}}", k):
+                T.fail(f"{what}: escaped braces in the format string {fmt!r} are not modelled")
+            if fmt[k] == "{":
+                e = fmt.index("}", k)
+                inner = fmt[k + 1:e]
+                name, _, spec = inner.partition(":")
+                if name == "":
+                    if pos >= len(positional):
+                        T.fail(f"{what}: more placeholders than arguments in {fmt!r}")
+                    args.append(positional[pos])
+                    pos += 1
+                elif re.fullmatch(r"[A-Za-z_][A-Za-z0-9_]*", name):
+                    args.append(name)
+                else:
+                    T.fail(f"{what}: placeholder {{{inner}}} is not modelled")
+                canon.append("{" + (":" + spec if spec else "") + "}")
+                k = e + 1
+            else:
+                canon.append(fmt[k])
+                k += 1
+        if pos != len(positional):
+            T.fail(f"{what}: unused arguments in {fmt!r}")
+        out.append(("".join(canon), args, newline))
+    return out
+
+
+def fn_body(T, src, header_re, what):
+    """body `{…}` of the function whose header matches (the parameter list is skipped)"""
+    m = re.search(header_re, src)
+    if not m:
+        T.fail(f"anchor not found: {what}")
+    k, pd = m.end(), 0
+    while k < len(src) and not (src[k] == "{" and pd == 0):
+        pd += (src[k] == "(") - (src[k] == ")")
+        k += 1
+    if k >= len(src):
+        T.fail(f"no body: {what}")
+    depth, j = 0, k
+    while j < len(src):
+        c = src[j]
+        if c == '"':
+            j += 1
+            while src[j] != '"':
+                j += 2 if src[j] == "\\" else 1
+        elif c == "'":
+            mm = re.match(CHAR_LIT, src[j:])
+            if mm:
+                j += mm.end() - 1
+        elif c == "{":
+            depth += 1
+        elif c == "}":
+            depth -= 1
+            if depth == 0:
+                return src[k + 1:j]
+        j += 1
+    T.fail(f"unbalanced function: {what}")
+
+
+def one_call(T, calls, nargs, want_args, what):
+    hits = [c for c in calls if len(c[1]) == nargs]
+    if not hits:
+        T.fail(f"{what}: no write! call with {nargs} arguments")
+    for fmt, args, newline in hits:
+        if args != want_args:
+            T.fail(f"{what}: arguments {args} where {want_args} are expected")
+        if not newline:
+            T.fail(f"{what}: the line {fmt!r} is no longer terminated by a newline")
+        if (fmt, args) != (hits[0][0], hits[0][1]):
+            T.fail(f"{what}: two different formats for the same line: {hits[0][0]!r} / {fmt!r}")
+    return hits[0][0], len(hits)
+
+
+def listing_tables(T):
+    """Format strings of the listing printers:
+      trapFormat        yash-builtin/src/trap.rs `display_trap`                  `trap -- {} {}` (quoted(command), cond)
+      aliasFormat       yash-builtin/src/alias/semantics.rs `print`              `{}={}` (quoted name, quoted replacement)
+      setFormat         yash-builtin/src/set.rs `PrintVariables`                 `{}={}` (name, value.quote())
+      varScalarFormat / varArrayFormat / varAttrFormat / attrOptionFormat
+                        yash-builtin/src/typeset/print_variables.rs `print_one`, `Display for AttributeOption`
+    plus the guards of `print_one` (`name.contains('=')` → nothing; attribute line of an array iff
+    `!options.is_empty() || context.builtin_is_significant`)."""
+    trap = strip_comments(T.read("yash-builtin/src/trap.rs"))
+    calls = fmt_calls(T, fn_body(T, trap, r"\bfn display_trap\b", "trap.rs display_trap"), "trap.rs display_trap")
+    if len(calls) != 1:
+        T.fail("trap.rs display_trap: exactly one write! call expected")
+    trap_fmt, _ = one_call(T, calls, 2, ["quoted(command)", "cond"], "trap.rs display_trap")
+    tb = squash(fn_body(T, trap, r"\bfn display_trap\b", "trap.rs display_trap"))
+    for need in ['Action::Ignore=>""', "Action::Command(command)=>command", 'Action::Defaultifinclude_default=>"-"']:
+        if need not in tb:
+            T.fail(f"trap.rs display_trap: the arm `{need}` has changed")
+
+    al = strip_comments(T.read("yash-builtin/src/alias/semantics.rs"))
+    calls = fmt_calls(T, fn_body(T, al, r"\bfn print\(alias: &Alias, result: &mut String\)", "alias/semantics.rs print"),
+                      "alias/semantics.rs print")
+    if len(calls) != 1:
+        T.fail("alias/semantics.rs print: exactly one write! call expected")
+    alias_fmt, _ = one_call(T, calls, 2, ["quoted(&alias.name)", "quoted(&alias.replacement)"], "alias/semantics.rs print")
+
+    st = strip_comments(T.read("yash-builtin/src/set.rs"))
+    m = re.search(r"Ok\(Command::PrintVariables\)\s*=>", st)
+    if not m:
+        T.fail("set.rs: the PrintVariables arm was not found")
+    arm = st[m.end():]
+    arm = arm[:arm.index("output(env")] if "output(env" in arm else T.fail("set.rs PrintVariables: `output(env, …)` not found")
+    calls = fmt_calls(T, arm, "set.rs PrintVariables")
+    if len(calls) != 1:
+        T.fail("set.rs PrintVariables: exactly one write! call expected")
+    set_fmt, _ = one_call(T, calls, 2, ["name", "value.quote()"], "set.rs PrintVariables")
+    sa = squash(arm)
+    if ".filter(|(name,_)|is_name(env,name))" not in sa or "ifletSome(value)=&var.value{" not in sa:
+        T.fail("set.rs PrintVariables: the filter (`is_name`) or the value test has changed")
+
+    pv = strip_comments(T.read("yash-builtin/src/typeset/print_variables.rs"))
+    body = fn_body(T, pv, r"\bfn print_one\b", "print_variables.rs print_one")
+    calls = fmt_calls(T, body, "print_variables.rs print_one")
+    if sorted(len(c[1]) for c in calls) != [2, 4, 4, 5]:
+        T.fail("print_variables.rs print_one: expected one scalar line, one array line and two attribute lines")
+    attr_args = ["context.builtin_name", "options", "separator", "quoted_name"]
+    scalar_fmt, _ = one_call(T, calls, 5, attr_args + ["value.quote()"], "print_one (scalar line)")
+    array_fmt, _ = one_call(T, calls, 2, ["quoted_name", "value.quote()"], "print_one (array line)")
+    attr_fmt, _ = one_call(T, calls, 4, attr_args, "print_one (attribute line)")
+    if [len(c[1]) for c in calls if len(c[1]) in (2, 4)][0] != 2 and [len(c[1]) for c in calls].index(2) > max(
+            i for i, c in enumerate(calls) if len(c[1]) == 4):
+        T.fail("print_one: the array assignment line must be written before its attribute line")
+    sb = squash(body)
+    if "ifname.contains('='){return;}" not in sb:
+        T.fail("print_one: the guard `name.contains('=')` has changed")
+    if ("if!options.is_empty()||context.builtin_is_significant{" not in sb
+            and "ifcontext.builtin_is_significant||!options.is_empty(){" not in sb):
+        T.fail("print_one: the condition of an array's attribute line has changed")
+    if "letquoted_name=yash_quote::quoted(name);" not in sb:
+        T.fail("print_one: `quoted_name` is no longer `yash_quote::quoted(name)`")
+    dbody = fn_body(T, pv[pv.index("impl std::fmt::Display for AttributeOption"):], r"\bfn fmt\b", "AttributeOption::fmt")
+    calls = fmt_calls(T, dbody, "AttributeOption::fmt")
+    if len(calls) != 1 or calls[0][1] != ["option.short"] or calls[0][2]:
+        T.fail("AttributeOption::fmt: expected one `write!(f, \"-{} \", option.short)`")
+    opt_fmt = calls[0][0]
+
+    # ---- constants of the state model (wave 3b): condition order, initial umask, option prefixes, symbolic umask
+    vs = strip_comments(T.read("yash-env/src/system/virtual/signal.rs"))
+    sigs = re.findall(r"pub const SIG([A-Z0-9]+): Number\s*=\s*Number::from_raw_unchecked\(NonZero::new\((\d+)\)\.unwrap\(\)\);", vs)
+    aliases = re.findall(r"pub const SIG([A-Z0-9]+): Number\s*=\s*SIG([A-Z0-9]+);", vs)
+    nums = dict(sigs)
+    for a, b in aliases:
+        if b not in nums:
+            T.fail(f"virtual/signal.rs: SIG{a} is an alias of an unknown signal SIG{b}")
+        sigs.append((a, nums[b]))
+    if len(sigs) < 20 or len(sigs) != len(re.findall(r"pub const SIG[A-Z0-9]+: Number\b", vs)):
+        T.fail("virtual/signal.rs: a `pub const SIGxxx: Number` that is not `Number::from_raw_unchecked(NonZero::new(N).unwrap())`")
+    cond = strip_comments(T.read("yash-env/src/trap/cond.rs"))
+    ebody = squash(T.item_body(cond, r"pub enum Condition\b", "cond.rs enum Condition"))
+    if not re.fullmatch(r"Exit,Signal\((?:signal::)?Number\),?", ebody):
+        T.fail(f"cond.rs: enum Condition is no longer `Exit, Signal(Number)` (the derived order puts EXIT first): `{ebody}`")
+    m = re.search(r"#\[derive\(([^)]*)\)\]\s*(?:#\[[^\]]*\]\s*)*pub enum Condition\b", cond)
+    if not m or "Ord" not in [x.strip() for x in m.group(1).split(",")]:
+        T.fail("cond.rs: Condition no longer derives Ord")
+    ib = squash(fn_body(T, cond, r"pub fn iter<S: Signals>", "Condition::iter"))
+    for need in ["conditions.push(Condition::Exit);", "conditions.extend(non_real_time);", "conditions.sort();",
+                 "S::NAMED_SIGNALS.iter().filter_map(|&(_,number)|Some(Condition::Signal(number?)))"]:
+        if need not in ib:
+            T.fail(f"Condition::iter: `{need}` not found (EXIT, then the named signals, sorted by number)")
+    fsrc = squash(strip_comments(T.read("yash-env/src/system/file_system.rs")))
+    m = re.search(r"implDefaultforMode\{fndefault\(\)->(?:Mode|Self)\{(?:Mode|Self)\(0o([0-7]+)\)\}\}", fsrc)
+    if not m:
+        T.fail("file_system.rs: `impl Default for Mode` is no longer `Mode(0o…)`")
+    initial_umask = int(m.group(1), 8)
+    if "umask:Mode::default()," not in squash(strip_comments(T.read("yash-env/src/system/virtual/process.rs"))):
+        T.fail("virtual/process.rs: a new process no longer starts with `umask: Mode::default()`")
+    tsy = squash(strip_comments(T.read("yash-builtin/src/typeset/syntax.rs")))
+    m = re.search(r"letnegate=matchchars\.next\(\)\{((?:Some\('.'\)=>(?:true|false),)+)_=>returnOk\(false\),\}", tsy)
+    if not m:
+        T.fail("typeset/syntax.rs try_parse_short: the first-character test of an option word has changed")
+    opt_prefixes = re.findall(r"Some\('(.)'\)", m.group(1))
+    sym = strip_comments(T.read("yash-builtin/src/umask/symbol.rs"))
+    wb = squash(fn_body(T, sym[sym.index("impl Who"):], r"pub fn parse\(s: &mut &str\) -> Self", "Who::parse"))
+    who = re.findall(r"Some\('(.)'\)=>mask\|=0o([0-7]+),", wb)
+    if len(who) != wb.count("Some(") or "_=>break," not in wb or "ifmask==0{mask=0o777;}" not in wb:
+        T.fail("umask/symbol.rs Who::parse: unexpected shape")
+    ob = squash(fn_body(T, sym[sym.index("impl Operator"):], r"pub fn parse\(s: &mut &str\) -> Result<Self, ParseOperatorError>", "Operator::parse"))
+    ops = re.findall(r"Some\('(.)'\)=>Self::(Add|Remove|Set),", ob)
+    if len(ops) != 3 or len(ops) != ob.count("Some("):
+        T.fail("umask/symbol.rs Operator::parse: unexpected shape")
+    pb = squash(fn_body(T, sym[sym.index("impl Permission"):], r"pub fn parse\(s: &mut &str\) -> Result<Self, ParsePermissionError>", "Permission::parse"))
+    m = re.search(r"\.find\(\|c:char\|!matches!\(c,([^)]*)\)\)", pb)
+    m2 = re.search(r"alphabets\.find\(\[([^\]]*)\]\)", pb)
+    if not m or not m2:
+        T.fail("umask/symbol.rs Permission::parse: the permission alphabet / copy letters have changed")
+    perm_chars = chars_of(T, m.group(1))
+    copy_chars = chars_of(T, m2.group(1))
+    pmasks = re.findall(r"'(.)'=>mask\|=0o([0-7]+),", pb)
+    if [c for c, _ in pmasks] != ["r", "w", "x"] or "'X'=>conditional_executable=true," not in pb:
+        T.fail("umask/symbol.rs Permission::parse: the r/w/x/X arms have changed")
+    cb = squash(fn_body(T, sym, r"pub fn parse_clauses\(mut s: &str\)", "parse_clauses"))
+    m = re.search(r"ifnext!='(.)'\{", cb)
+    if not m:
+        T.fail("umask/symbol.rs parse_clauses: the clause separator has changed")
+    clause_sep = m.group(1)
+    fb = squash(fn_body(T, strip_comments(T.read("yash-builtin/src/umask/format.rs")), r"pub fn format_symbolic\(mask: u16\)", "format_symbolic"))
+    pieces = re.findall(r"(?:ifmask&0o([0-7]+)!=0\{)?result\.push(?:_str)?\((?:\"([^\"]*)\"|'(.)')\);", fb)
+    if len(pieces) != 12:
+        T.fail("umask/format.rs format_symbolic: expected 3 headers and 9 conditional letters")
+    fmt_rows = ", ".join(f"({int(b, 8) if b else 0}, {T.lean_str(a or c)}.toList)" for b, a, c in pieces)
+    opn = {"Add": 0, "Remove": 1, "Set": 2}
+
+    def chars(x):
+        return lean_chars(T, list(x))
+    state = f"""/-- yash-env `system/virtual/signal.rs`: (name without SIG, number) of every signal of the virtual system -/
+def virtualSignals : List (String × Nat) := [{", ".join(f'({T.lean_str(n)}, {k})' for n, k in sigs)}]
+/-- yash-env `impl Default for Mode` = the umask a process of the virtual system starts with -/
+def initialUmask : Nat := {initial_umask}
+/-- yash-builtin `typeset/syntax.rs` `try_parse_short`: first characters that make an argument an option word -/
+def typesetOptionPrefixes : List Char := {chars(opt_prefixes)}
+/-- `umask/symbol.rs` `Who::parse`: (letter, bits) -/
+def whoChars : List (Char × Nat) := [{", ".join(f"({T.lean_char(c)}, {int(b, 8)})" for c, b in who)}]
+/-- `Operator::parse`: (character, 0 = add / 1 = remove / 2 = set) -/
+def umaskOperators : List (Char × Nat) := [{", ".join(f"({T.lean_char(c)}, {opn[n]})" for c, n in ops)}]
+/-- `Permission::parse`: the permission alphabet, the copy letters, (letter, bits) of r/w/x -/
+def permChars : List Char := {chars(perm_chars)}
+def permCopyChars : List Char := {chars(copy_chars)}
+def permMasks : List (Char × Nat) := [{", ".join(f"({T.lean_char(c)}, {int(b, 8)})" for c, b in pmasks)}]
+/-- `parse_clauses`: the clause separator -/
+def clauseSeparator : Char := {T.lean_char(clause_sep)}
+/-- `format_symbolic`: (bit tested, 0 = unconditional; text pushed) in order -/
+def symbolicPieces : List (Nat × List Char) := [{fmt_rows}]
+"""
+    body = state + f"""/-- yash-builtin `trap.rs` `display_trap`: `writeln!` format; arguments: quoted(command), cond -/
+def trapFormat : List Char := {chars(trap_fmt)}
+/-- yash-builtin `alias/semantics.rs` `print`: arguments: quoted(name), quoted(replacement) -/
+def aliasFormat : List Char := {chars(alias_fmt)}
+/-- yash-builtin `set.rs` `PrintVariables`: arguments: name (unquoted), value.quote() -/
+def setFormat : List Char := {chars(set_fmt)}
+/-- `print_variables.rs` `print_one`, scalar: builtin name, options, separator, quoted name, value.quote() -/
+def varScalarFormat : List Char := {chars(scalar_fmt)}
+/-- `print_one`, array assignment line: quoted name, value.quote() -/
+def varArrayFormat : List Char := {chars(array_fmt)}
+/-- `print_one`, attribute line (valueless variable, array): builtin name, options, separator, quoted name -/
+def varAttrFormat : List Char := {chars(attr_fmt)}
+/-- `Display for AttributeOption`: one option letter -/
+def attrOptionFormat : List Char := {chars(opt_fmt)}
+"""
+    T.write("ListingTables", body)
+
+
+TABLES = {"QuoteTables": quote_tables, "OptionTable": option_table, "ScriptTables": script_tables,
+          "ListingTables": listing_tables}
